@@ -252,7 +252,7 @@ func buildPool(seed uint64) *pool {
 	}
 	corpus, _ := workload.Corpus()
 	for _, p := range corpus {
-		if !workload.Deterministic(p.Src) || len(p.Inputs) == 0 {
+		if !workload.Deterministic(p.Src) || !workload.Tame(p.Src) || len(p.Inputs) == 0 {
 			continue
 		}
 		pl.items = append(pl.items, poolItem{ProgSpec{Src: p.Src, VarNames: p.VarNames, VarVals: p.VarVals}, p.Inputs[0]})
@@ -299,7 +299,7 @@ func genCase(seed uint64, idx int, tr tiers) Data {
 			it = pl.items[r.Intn(len(pl.items))]
 		case 3:
 			it = pl.items[r.Intn(len(pl.items))]
-			if m := workload.MutateProgram(r, it.p.Src); workload.Deterministic(m) {
+			if m := workload.MutateProgram(r, it.p.Src); workload.Deterministic(m) && workload.Tame(m) {
 				it.p.Src = m
 			}
 		default:
@@ -702,6 +702,10 @@ func execute(d *Data, maxPhases int) (*kernel.Violation, *stats) {
 	}
 	for wi := range d.Workers {
 		st.steps += s.Worker(wi).Steps
+	}
+	if s.Slow {
+		st.skip = "slow program (a single VM instruction ran longer than the stall limit)"
+		return nil, st
 	}
 	// The solo baseline runs after the concurrent part (fresh compile, fresh builds
 	// of the inputs, no gate), so that process-wide lazily initialised state is
